@@ -140,26 +140,39 @@ fn constraints(c: &Option<Vec<(usize, f32)>>, calls: usize) -> Option<SpatioTemp
 
 fn visual_opts(cfg: &TrkCfg) -> VisualSortOptions {
     let v = cfg.visual.as_ref().expect("visual cfg");
-    let mut o = VisualSortOptions::default()
-        .max_idle_epochs(cfg.max_idle)
-        .kept_history_length(cfg.history)
-        .visual_metric(if v.cosine {
-            VisualSortMetricType::cosine(v.threshold)
-        } else {
-            VisualSortMetricType::euclidean(v.threshold)
-        })
-        .positional_metric(pos_metric(&cfg.metric))
-        .positional_min_confidence(cfg.min_conf)
-        .visual_minimal_track_length(v.min_track_len)
-        .visual_minimal_area(v.min_area)
-        .visual_minimal_quality_use(v.q_use)
-        .visual_minimal_quality_collect(v.q_collect)
-        .visual_max_observations(v.max_obs)
-        .visual_min_votes(v.min_votes)
-        .visual_minimal_own_area_percentage_use(v.own_use)
-        .visual_minimal_own_area_percentage_collect(v.own_collect)
-        .kalman_position_weight(cfg.pos_w)
-        .kalman_velocity_weight(cfg.vel_w);
+    // A setter is only called when the wanted value differs from the documented default
+    // (README / option docs: max_idle_epochs 2, history 10, IoU(0.3), minimal track length 3,
+    // area / quality / own-area thresholds 0, 5 stored features, 1 vote, Kalman weights 1/20 and
+    // 1/160), so configurations that rely on the defaults are part of the explored space.
+    let mut o = VisualSortOptions::default();
+    macro_rules! set {
+        ($cond:expr, $e:expr) => {
+            if $cond {
+                o = $e;
+            } else {
+                rt::probe::hit("option_left_at_documented_default");
+            }
+        };
+    }
+    set!(cfg.max_idle != 2, o.max_idle_epochs(cfg.max_idle));
+    set!(cfg.history != 10, o.kept_history_length(cfg.history));
+    o = o.visual_metric(if v.cosine {
+        VisualSortMetricType::cosine(v.threshold)
+    } else {
+        VisualSortMetricType::euclidean(v.threshold)
+    });
+    set!(!matches!(cfg.metric, PosMetric::IoU(t) if t == 0.3), o.positional_metric(pos_metric(&cfg.metric)));
+    set!(cfg.min_conf != 0.1, o.positional_min_confidence(cfg.min_conf));
+    set!(v.min_track_len != 3, o.visual_minimal_track_length(v.min_track_len));
+    set!(v.min_area != 0.0, o.visual_minimal_area(v.min_area));
+    set!(v.q_use != 0.0, o.visual_minimal_quality_use(v.q_use));
+    set!(v.q_collect != 0.0, o.visual_minimal_quality_collect(v.q_collect));
+    set!(v.max_obs != 5, o.visual_max_observations(v.max_obs));
+    set!(v.min_votes != 1, o.visual_min_votes(v.min_votes));
+    set!(v.own_use != 0.0, o.visual_minimal_own_area_percentage_use(v.own_use));
+    set!(v.own_collect != 0.0, o.visual_minimal_own_area_percentage_collect(v.own_collect));
+    set!(cfg.pos_w != 1.0 / 20.0, o.kalman_position_weight(cfg.pos_w));
+    set!(cfg.vel_w != 1.0 / 160.0, o.kalman_velocity_weight(cfg.vel_w));
     if let Some(c) = constraints(&cfg.constraints, cfg.constraint_calls) {
         o = o.spatio_temporal_constraints(c);
     }
@@ -317,6 +330,16 @@ impl AnyTracker {
                     .iter()
                     .map(|d| VisualSortObservation::new(d.feature.as_deref(), d.quality, to_ubox(&d.b), d.custom))
                     .collect();
+                // the observation-set helper is the documented way to assemble a call
+                let v = if alt {
+                    let mut set = similari::trackers::visual_sort::VisualSortObservationSet::new();
+                    for o in v {
+                        set.add(o);
+                    }
+                    set.inner
+                } else {
+                    v
+                };
                 if conv {
                     return t.predict(&v).iter().map(rec).collect();
                 }
@@ -628,6 +651,14 @@ pub fn run_tracker(case: &TrackerCase, opts: &DriveOpts) -> History {
         let phys = if opts.snapshots && quiescent { Some(t.phys(cfg.shards)) } else { None };
         hist.push(Step { res, phys, quiesce_batches });
         let _ = n_ops;
+    }
+    // shutdown: in half of the histories that still have consumers reading on other threads
+    // the tracker is dropped FIRST (its Drop joins the voting threads, which can only finish
+    // once those consumers have taken their results) and the consumers are joined afterwards
+    let mut t = Some(t);
+    if !late.is_empty() && late.len() % 2 == 1 {
+        rt::probe::hit("shutdown_while_consumers_still_reading");
+        drop(t.take());
     }
     for l in late.drain(..) {
         l.handle.join().unwrap();
